@@ -356,6 +356,66 @@ pub fn add_mutants(u: &mut Universe, src: &mut Src, per_adt: usize, max_subjects
     }
 }
 
+/// For enums with a unit variant (up to `max` definitions): one mutant with that variant renamed and one with it
+/// exchanged with a neighbour (a unit variant carries no field, so only its own name and position tell the
+/// definitions apart; the random kind 5 above seldom lands on one). Registered like the mutants of `add_mutants`.
+pub fn add_unit_variant_mutants(u: &mut Universe, max: usize) {
+    let n_orig = u.adts.len();
+    let orig_subjects = u.subjects.clone();
+    let mut done = 0;
+    for i in 0..n_orig {
+        if done >= max || u.adts[i].mutant_of.is_some() {
+            continue;
+        }
+        let Body::Enum(vs) = &u.adts[i].body else { continue };
+        let Some(k) = vs.iter().position(|(_, f)| matches!(f, Fields::Unit)) else { continue };
+        let mut made = vec![];
+        {
+            let mut d = u.adts[i].clone();
+            if let Body::Enum(vs) = &mut d.body {
+                let old = vs[k].0.clone();
+                vs[k].0 = format!("{}X", old.trim_start_matches("r#"));
+                d.mutation = Some(format!("unit variant {} renamed", old));
+            }
+            made.push(d);
+        }
+        if vs.len() >= 2 {
+            let mut d = u.adts[i].clone();
+            if let Body::Enum(vs) = &mut d.body {
+                let j = if k + 1 < vs.len() { k + 1 } else { k - 1 };
+                vs.swap(k, j);
+                d.mutation = Some(format!("unit variant {} exchanged with variant {}", k, j));
+            }
+            made.push(d);
+        }
+        done += 1;
+        for (n, mut d) in made.into_iter().enumerate() {
+            d.module = format!("uv{}_{}", i, n);
+            d.mutant_of = Some(i);
+            u.adts.push(d);
+            let new = u.adts.len() - 1;
+            for (si, s) in orig_subjects.iter().enumerate() {
+                if !mentions_adt(u, s, i) {
+                    continue;
+                }
+                let t = retarget(s, i, new);
+                if !valid_closed(u, &t) || crate::gen::has_zst_block(u, &t) {
+                    continue;
+                }
+                let ti = match u.subjects.iter().position(|x| *x == t) {
+                    Some(p) => p,
+                    None => {
+                        u.subjects.push(t);
+                        u.subjects.len() - 1
+                    }
+                };
+                u.pairs.push((si, ti));
+                break;
+            }
+        }
+    }
+}
+
 /// For every zero-copy definition (up to `max`): two copies that differ from each other only in the
 /// argument of `repr(align(N))` (16 vs 32), with retargeted subjects paired with each other and with the
 /// original. Sizes usually coincide, so only the attribute text tells them apart.
